@@ -388,6 +388,11 @@ var c17files = []string{"/d/a1", "/d/a2", "/d/b1", "/d/a*b", "/d/x.conf", "/d/y.
 	"/d/sub/deep/z", "/e/only", "/d/sp ace"}
 var c17dirs = []string{"/d", "/d/sub", "/d/sub/deep", "/e"}
 
+// a second tree: some directories have names that look like glob patterns; the recursive
+// expansion of a `dir` wildcard line must take them literally
+var c17filesG = append(append([]string{}, c17files...), "/d/sub/site[1]/in", "/d/sub/odd[n/x y", "/d/sub/deep/q?/f")
+var c17dirsG = append(append([]string{}, c17dirs...), "/d/sub/site[1]", "/d/sub/odd[n", "/d/sub/deep/q?")
+
 func c17scratch() string {
 	base := os.Getenv("VERIF_SCRATCH")
 	if base == "" {
@@ -397,28 +402,55 @@ func c17scratch() string {
 }
 
 func c17tree() string {
-	c17treeOnce.Do(func() {
-		root, err := ioutil.TempDir(c17scratch(), "c17tree")
-		if err != nil {
-			panic(err)
-		}
-		for _, d := range c17dirs {
-			os.MkdirAll(root+d, 0755)
-		}
-		for _, f := range c17files {
-			ioutil.WriteFile(root+f, []byte("x"), 0644)
-		}
-		c17treeRoot = root
-	})
+	c17treeOnce.Do(func() { c17treeRoot = c17treeFor(c17files, c17dirs) })
 	return c17treeRoot
+}
+
+var c17trees = map[string]string{}
+var c17treesMu sync.Mutex
+
+// c17treeFor: the scratch tree a case describes (its files and directories), made once per
+// distinct description
+func c17treeFor(files, dirs []string) string {
+	key := strings.Join(files, "\x00") + "\x01" + strings.Join(dirs, "\x00")
+	c17treesMu.Lock()
+	defer c17treesMu.Unlock()
+	if r, ok := c17trees[key]; ok {
+		return r
+	}
+	root, err := ioutil.TempDir(c17scratch(), "c17tree")
+	if err != nil {
+		panic(err)
+	}
+	for _, d := range dirs {
+		os.MkdirAll(root+d, 0755)
+	}
+	for _, f := range files {
+		os.MkdirAll(filepath.Dir(root+f), 0755)
+		ioutil.WriteFile(root+f, []byte("x"), 0644)
+	}
+	c17trees[key] = root
+	return root
 }
 
 // c17slash stands for the scratch tree's own path in cases whose build root is "/" itself (the
 // stage of the running system): the names in such a case are host paths below the scratch tree
 const c17slash = "/@R"
 
-func observeUserList(pre, lines []string, slashRoot bool) interface{} {
+func observeUserList(pre, lines []string, slashRoot bool, files, dirs []string) interface{} {
 	root := c17tree()
+	if len(files)+len(dirs) > 0 {
+		strip := func(xs []string) []string {
+			out := []string{}
+			for _, x := range xs {
+				if x = strings.TrimPrefix(x, c17slash); x != "" {
+					out = append(out, x)
+				}
+			}
+			return out
+		}
+		root = c17treeFor(strip(files), strip(dirs))
+	}
 	const file = "addf"
 	if slashRoot {
 		for i := range pre {
@@ -659,7 +691,7 @@ func init() {
 	}
 	ops["stage.userlist"] = func(c Case) interface{} {
 		b, _ := c["slashroot"].(bool)
-		return observeUserList(unhxs(c["pre"]), unhxs(c["lines"]), b)
+		return observeUserList(unhxs(c["pre"]), unhxs(c["lines"]), b, unhxs(c["files"]), unhxs(c["dirs"]))
 	}
 	ops["sm.recipe"] = func(c Case) interface{} {
 		b, _ := c["cmd_root"].(bool)
@@ -713,20 +745,24 @@ func init() {
 
 			// 4. file level: wildcard add / omit on the scratch tree
 			if i%3 == 0 {
+				tf, td := c17files, c17dirs
+				if i%6 == 0 {
+					tf, td = c17filesG, c17dirsG
+				}
 				if i%12 == 3 {
 					// the build root is "/" itself: stage-relative names are host paths
 					pre, lines := genUserList(g, c17slash)
 					files, dirs := []string{}, []string{c17slash}
-					for _, f := range c17files {
+					for _, f := range tf {
 						files = append(files, c17slash+f)
 					}
-					for _, d := range c17dirs {
+					for _, d := range td {
 						dirs = append(dirs, c17slash+d)
 					}
 					emit(Case{"op": "stage.userlist", "files": hxs(files), "dirs": hxs(dirs), "pre": hxs(pre), "lines": hxs(lines), "slashroot": true})
 				} else {
 					pre, lines := genUserList(g, "")
-					emit(Case{"op": "stage.userlist", "files": hxs(c17files), "dirs": hxs(c17dirs), "pre": hxs(pre), "lines": hxs(lines)})
+					emit(Case{"op": "stage.userlist", "files": hxs(tf), "dirs": hxs(td), "pre": hxs(pre), "lines": hxs(lines)})
 				}
 			}
 			// 5. recipe files through the stagemaker binary
